@@ -86,8 +86,14 @@ RULES = {
     "the subgraphs of a node, an is_ref() test that skips the attribute comes first - a valid model may contain a function whose "
     "control-flow node takes its branches from attribute parameters, and a pass that walks function bodies (unused-node removal, inlining) "
     "must transform such a model, not raise TypeError on it",
+    "R20": "a value found for one graph is not handed to another: in a pass loop that walks the nodes of *all* graphs of a model (recursive "
+    "traversal), a table created before the loop that remembers Values (`table[key] = value`) and is consulted to decide what a node's "
+    "uses are redirected to (`replace_all_uses_with`) or what is registered as an initializer has the owning graph in its key - a memo "
+    "keyed by the tensor object, a name or a hash alone hands the initializer registered in one If branch to a Constant of the sibling "
+    "branch (or of the enclosing graph), which cannot see it: the model refers to a value that is not defined in scope and no longer "
+    "computes (the checker rejects it)",
 }
-FLOORS = {"R1": 5, "R2": 6, "R3": 8, "R4": 6, "R5": 8, "R6": 2, "R7": 1, "R8": 10, "R9": 1, "R10": 3, "R11": 1, "R12": 2, "R13": 2, "R14": 2, "R15": 2, "R16": 100, "R17": 1, "R18": 1, "R19": 2}
+FLOORS = {"R1": 5, "R2": 6, "R3": 8, "R4": 6, "R5": 8, "R6": 2, "R7": 1, "R8": 10, "R9": 1, "R10": 3, "R11": 1, "R12": 2, "R13": 2, "R14": 2, "R15": 2, "R16": 100, "R17": 1, "R18": 1, "R19": 2, "R20": 1}
 EXPLANATION = (
     "Four structural necessary conditions of semantic preservation that the pass mechanisms rely on: guarded removal, "
     "interface-size preservation (call-site scan with receiver typing), data-dependence of the equivalence keys on all "
@@ -1257,8 +1263,56 @@ def rule_r17(ctx):
     ctx.require(n >= 1, "no pass deletes opset imports (RemoveUnusedOpsetsPass expected)")
 
 
+def rule_r20(ctx):
+    n = 0
+    for m in ctx.repo.pkg_modules():
+        if not m.name.startswith("onnx_ir.passes") or m.name.endswith("_test"):
+            continue
+        for f in ctx.repo.live(m.all_funcs):
+            if isinstance(f.node, ast.Lambda):
+                continue
+            for lp in (x for x in own_nodes(f.node) if isinstance(x, ast.For)):
+                it = norm(lp.iter)
+                if not ("RecursiveGraphIterator" in it or ".all_nodes()" in it):
+                    continue
+                n += 1
+                inside = {id(x) for x in ast.walk(lp)}
+                tables = set()
+                for a in own_nodes(f.node):
+                    if id(a) in inside:
+                        continue
+                    if isinstance(a, (ast.Assign, ast.AnnAssign)) and getattr(a, "value", None) is not None and (
+                            isinstance(a.value, ast.Dict) or (isinstance(a.value, ast.Call) and (dotted_of(a.value.func) or "").split(".")[-1] in ("dict", "defaultdict", "OrderedDict"))):
+                        for t in (a.targets if isinstance(a, ast.Assign) else [a.target]):
+                            if isinstance(t, ast.Name):
+                                tables.add(t.id)
+                if not tables:
+                    continue
+                # values that decide a rewiring inside the loop
+                rewired = set()
+                for c in (x for x in ast.walk(lp) if isinstance(x, ast.Call) and isinstance(x.func, ast.Attribute)
+                          and x.func.attr in ("replace_all_uses_with", "register_initializer", "replace_input_with")):
+                    rewired |= {y.id for a_ in c.args for y in ast.walk(a_) if isinstance(y, ast.Name)}
+                for st in (x for x in ast.walk(lp) if isinstance(x, ast.Assign)):
+                    t = st.targets[0]
+                    if not (isinstance(t, ast.Subscript) and isinstance(t.value, ast.Name) and t.value.id in tables and isinstance(st.value, ast.Name) and st.value.id in rewired):
+                        continue
+                    key = t.slice
+                    scoped = any((isinstance(y, ast.Attribute) and y.attr in ("graph", "_graph")) or (isinstance(y, ast.Name) and "graph" in y.id.lower()) for y in ast.walk(key))
+                    ctx.check("R20", f"{f.local}: the memo `{t.value.id}` of rewiring targets is keyed per graph", scoped, f, st,
+                              f"`{norm(st)[:70]}` remembers a value under `{norm(key)[:40]}` in a table that lives across all graphs of the traversal `{it[:50]}`, and the remembered value is "
+                              "what later nodes are rewired to: a node in a sibling subgraph (or in the enclosing graph) is redirected to a value registered in a graph it cannot see - "
+                              "the transformed model refers to an undefined value and is rejected by the checker",
+                              how="tables created before a loop over a recursive traversal, filled inside it with a value that also feeds replace_all_uses_with / register_initializer; the key names the owning graph",
+                              construct=f"cross-graph memo {t.value.id}[{norm(key)[:30]}]")
+    ctx.ob("R20", f"{n} pass loops over a recursive traversal examined for cross-graph memos", True, how="S: memo key names the graph")
+    ctx.require(n >= 3, f"only {n} pass loops over a recursive traversal found")
+
+
 def run(ctx):
     from . import c14
+
+    rule_r20(ctx)
 
     c14.rule_r11(ctx, rule="R18")
     from ..shared import rule_s18
